@@ -134,3 +134,48 @@ fn c10_gridshift_nogrids() {
     let r = if kani::any() { fwd(&op, &NoCtx, &mut data) } else { inv(&op, &NoCtx, &mut data) };
     assert!(r == 1 && beq(data[0][0], c[0]) && beq(data[0][1], c[1]) && beq(data[0][2], c[2]) && beq(data[0][3], c[3]), "C10.K.gridshift.nogrids: nothing to do => data untouched, all counted");
 }
+
+
+// a grid with a deterministic answer: it covers x < xmax (any margin) and delivers a fixed correction
+#[derive(Debug)]
+struct RegionGrid {
+    xmax: f64,
+    d: [f64; 4],
+}
+impl Grid for RegionGrid {
+    fn bands(&self) -> usize {
+        2
+    }
+    fn contains(&self, c: &Coor4D, _margin: f64) -> bool {
+        c[0] < self.xmax
+    }
+    fn at(&self, c: &Coor4D, _margin: f64) -> Option<Coor4D> {
+        if c[0] < self.xmax {
+            Some(Coor4D(self.d))
+        } else {
+            None
+        }
+    }
+}
+
+//@h {"id":"C02.K.gridshift.batch","props":["C02","C08"],"tier":"quick","kind":"bounded","bound":"two overlapping grids [A covering x < 10, B covering everything] with distinct power-of-two corrections; 2 tuples in every combination of {only B, A and B} positions and both orders","replay":"none","timeout":900,"text":"gridshift fwd transforms every tuple as if it were alone: the grid used for a tuple is the first one in list order containing it, whatever grid served the previous tuple (no state carried from tuple to tuple)"}
+#[kani::proof]
+#[kani::unwind(12)]
+#[kani::stub(crate::op::ParsedParameters::boolean, stub_boolean)]
+fn c02_gridshift_batch() {
+    let mut p = bare_params("gridshift");
+    let a: Arc<dyn Grid> = Arc::new(RegionGrid { xmax: 10.0, d: [0.5, 0.25, 0.0, 0.0] });
+    let b: Arc<dyn Grid> = Arc::new(RegionGrid { xmax: f64::INFINITY, d: [4.0, 8.0, 0.0, 0.0] });
+    p.grids = vec![a, b];
+    let op = bare_op(p, InnerOp(fwd), Some(InnerOp(inv)), false);
+    let in_a: [bool; 2] = kani::any();
+    let x = |ina: bool| if ina { 5.0 } else { 20.0 };
+    let mut data = [Coor4D([x(in_a[0]), 1.0, 2.0, 3.0]), Coor4D([x(in_a[1]), 1.0, 2.0, 3.0])];
+    let r = fwd(&op, &NoCtx, &mut data);
+    assert!(r == 2, "C02.K.gridshift.batch.count: both tuples counted");
+    let i: usize = kani::any();
+    kani::assume(i < 2);
+    let (dx, dy) = if in_a[i] { (0.5, 0.25) } else { (4.0, 8.0) };
+    assert!(data[i][0] == x(in_a[i]) + dx && data[i][1] == 1.0 + dy, "C02.K.gridshift.batch: each tuple is shifted by the first grid in list order that contains IT, independent of its neighbours");
+    kani::cover!(!in_a[0] && in_a[1], "a tuple in the overlap following a tuple only the later grid covers is reachable");
+}
